@@ -58,7 +58,7 @@ def expectation_lines(tc):
     return []
 
 
-def md_block(tc):
+def md_block(tc, compat=False):
     cfg = []
     if tc["t"] != NONE:
         cfg.append(f"timeout: {_dur(tc['t'])}")
@@ -71,7 +71,7 @@ def md_block(tc):
     if tc["stream"] != "stdout":
         cfg.append(f"output_stream: {tc['stream']}")
     info = "scrut" + (" {" + ", ".join(cfg) + "}" if cfg else "")
-    lines = [f"# {tc['id']}", "", f"```{info}", f"$ {command_of(tc, 'md')}"] + expectation_lines(tc)
+    lines = [f"# {tc['id']}", "", f"```{info}", f"$ {command_of(tc, 'cram' if compat else 'md')}"] + expectation_lines(tc)
     if tc["exp"] != NONE:
         lines.append(f"[{tc['exp']}]")
     lines += ["```", ""]
@@ -86,7 +86,7 @@ def cram_block(tc):
     return lines
 
 
-def render_doc(doc, tests, front=None):
+def render_doc(doc, tests, front=None, compat=False):
     if doc["fault"] == "unreadable":
         return b"\xff\xfe# not utf-8 \xc3\x28\n"
     if doc["fault"] == "unparsable":
@@ -101,7 +101,7 @@ def render_doc(doc, tests, front=None):
         if fm:
             out += ["---"] + fm + ["---", ""]
         for tc in tests:
-            out += md_block(tc)
+            out += md_block(tc, compat)
     else:
         for tc in tests:
             out += cram_block(tc)
@@ -119,10 +119,10 @@ def materialise(sc, root):
     shared_doc = {"fmt": sfmt, "tfm": NONE, "skipdef": NONE, "fault": "no"}
     if sc["pre"]:
         with open(os.path.join(docs_dir, "p1." + sext), "wb") as f:
-            f.write(render_doc(shared_doc, sc["pre"]))
+            f.write(render_doc(shared_doc, sc["pre"], compat=sc.get("compat", False)))
     if sc["app"]:
         with open(os.path.join(docs_dir, "a1." + sext), "wb") as f:
-            f.write(render_doc(shared_doc, sc["app"]))
+            f.write(render_doc(shared_doc, sc["app"], compat=sc.get("compat", False)))
     paths = []
     for i, doc in enumerate(sc["docs"]):
         front = []
@@ -138,7 +138,7 @@ def materialise(sc, root):
         os.makedirs(sub, exist_ok=True)
         path = os.path.join(sub, name)
         with open(path, "wb") as f:
-            f.write(render_doc(doc, doc["tests"], front))
+            f.write(render_doc(doc, doc["tests"], front, compat=sc.get("compat", False)))
         paths.append(path)
     argv = list(paths)
     if sc.get("dirarg"):
@@ -149,6 +149,8 @@ def materialise(sc, root):
         argv = [docs_dir]
     if sc["tcli"] != NONE:
         argv += ["--timeout-seconds", str(sc["tcli"])]
+    if sc.get("compat"):
+        argv += ["--cram-compat"]
     if sc["noshell"]:
         argv += ["--shell", os.path.join(root, "no-such-shell")]
     if sc["via"] == "cli":
